@@ -150,6 +150,16 @@ func TestC14(t *testing.T) {
 			if diverged {
 				continue
 			}
+			// One more witness decides: a FRESH process. If it reproduces the recording, the replays in this process differ
+			// only because the process had already executed the scenario once - block execution reads state it left behind
+			// in the process (package-level values, caches) instead of the committed state.
+			if fps, _, ferr := runReplica(tapePath, filepath.Join(tmp, fmt.Sprintf("out-%d-fresh.jsonl", si)), envSpec{name: "fresh-process", env: map[string]string{"GOMAXPROCS": "2"}}); ferr == nil && len(fps) > 0 && fps[len(fps)-1].AppHash == want {
+				r.Eval(cid+"/recording-vs-same-process-replays", true)
+				r.Violation(cid, "divergence/same-process-replays-differ-from-the-recording-which-a-fresh-process-reproduces", map[string]interface{}{
+					"recorded_final_app_hash": want, "fresh_process_final_app_hash": fps[len(fps)-1].AppHash, "same_process_replays_final_app_hash": got,
+					"meaning": "the same request stream gives another state in a process that has executed it before: block execution depends on state kept in process memory"})
+				continue
+			}
 			r.Inconclusive("%s: replay of the tape does not reproduce the recorded chain although 8 replays agree with each other (harness wrote state outside ABCI): %s vs %s", cid, got, want)
 			return
 		}
